@@ -22,7 +22,11 @@ class SecurityCheck:
                 return Left(TrashDirCannotBeCreatedBecauseParentIsFile())
             if self.fs.islink(parent):
                 return Left(TrashDirIsNotSecureBecauseSymLink())
-            if not self.fs.has_sticky_bit(parent):
+            try:
+                sticky = self.fs.has_sticky_bit(parent)
+            except (IOError, OSError):
+                sticky = False
+            if not sticky:
                 return Left(TrashDirIsNotSecureBecauseNotSticky())
             return Right(None)
         raise Exception("Unknown check type: %s" % candidate.check_type)
